@@ -154,11 +154,12 @@ class Opaque(Val):
 
 
 class Tup(Val):
-    __slots__ = ("items", "islist")
+    __slots__ = ("items", "islist", "isrow")
 
-    def __init__(self, items, islist=False):
+    def __init__(self, items, islist=False, isrow=False):
         self.items = list(items)
         self.islist = islist
+        self.isrow = isrow      # a row of a 2-D array (NumPy semantics: arithmetic is elementwise)
 
     def __repr__(self):
         return "Tup(%s)" % (self.items,)
@@ -303,7 +304,7 @@ def build_val(sh, terms, islist=False):
             k = len(flatten_shape(a))
             items.append(build_val(a, terms[:k]))
             terms = terms[k:]
-        return Tup(items, islist=True)
+        return Tup(items, islist=True, isrow=True)
     return leaf_val(sh, terms[0])
 
 
@@ -459,7 +460,8 @@ def fresh(sh, base, facts, kind="array"):
     if sh.kind == "none":
         return NoneV()
     if sh.kind == "tup":
-        return Tup([fresh(a, "%s.%d" % (base, i), facts) for i, a in enumerate(sh.args)])
+        return Tup([fresh(a, "%s.%d" % (base, i), facts) for i, a in enumerate(sh.args)],
+                   isrow=all(a.kind in ("int", "real") for a in sh.args))
     if sh.kind == "seq":
         esh = sh.args[0]
         n = z3.Int(fresh_name(base + ".len"))
